@@ -2,8 +2,8 @@
    Model: Conc/Gpool.v (transition system of tars/util/gpool/gpool.go for W workers and a JobQueue of capacity Q, any number of
    concurrent submitters, any jobs, Release; [reachable W Q s] = s is reached from the initial state by SOME label sequence, so
    every theorem below is about all schedules). *)
-From Coq Require Import List Arith NArith Permutation.
-From TarsV Require Import Conc.Gpool Conc.GpoolProofs Conc.GpoolLive Conc.GpoolFair Conc.GpoolEventually Conc.GpoolFifo.
+From Coq Require Import List Arith NArith ZArith Permutation.
+From TarsV Require Import Conc.Gpool Conc.GpoolProofs Conc.GpoolLive Conc.GpoolFair Conc.GpoolEventually Conc.GpoolFifo Conc.PoolSrc Gen.C19Src Conc.PoolUse Conc.PoolUseProofs Conc.PoolSrcProofs.
 Import ListNotations.
 
 (* no job is handed to a worker twice; what has been handed over is exactly what occupies a worker or has finished *)
@@ -130,6 +130,15 @@ Theorem C19_nothing_starts_after_release : forall W Q s l s', reachable W Q s ->
   started s' = started s /\ runl s' = runl s /\ wk s' = wk s /\ rp s' = RDone.
 Proof. exact GpoolProofs.nothing_starts_after_release. Qed.
 
+(* when Release returns every job ever handed to a worker has finished; what was still queued has not started (and never will) *)
+Theorem C19_release_after_every_started_job_finished : forall W Q s, reachable W Q s -> (rp s = RDone \/ rp s = RAcked) ->
+  Permutation (started s) (fin s) /\ (forall j, In j (started s) -> In j (fin s)) /\ (forall j, In j (jobq s) -> ~ In j (started s)).
+Proof. exact GpoolFifo.release_after_every_started_job_finished. Qed.
+(* the buffered WorkerQueue never exceeds its capacity W: a worker's registration `w.WorkerQueue <- w` never blocks *)
+Theorem C19_worker_registration_never_blocks : forall W Q s, reachable W Q s ->
+  length (wq s) <= W /\ (forall w s', step W Q s (WorkerReg w) = Some s' -> length (wq s) < W).
+Proof. exact GpoolFifo.worker_queue_never_blocks. Qed.
+
 (* refinement: the observable trace of every execution is accepted by the specification machine (the validator run on real traces) *)
 Theorem C19_refines_spec : forall W Q ls s, run W Q (init W) ls = Some s ->
   sruns W sinit (trace W Q (init W) ls) = Some (abs s) /\ accepts W (trace W Q (init W) ls) = true.
@@ -150,6 +159,72 @@ Theorem C19_spec_complete : forall W tr, accepts_complete W tr = true ->
   accepts W tr = true /\ length (starts_of tr) = length (ends_of tr) /\
   exists σ, sruns W sinit tr = Some σ /\ length (s_done σ) = length (s_called σ) /\ Permutation (ends_of tr) (s_done σ).
 Proof. exact GpoolProofs.spec_complete. Qed.
+
+(* ---------- the source of the tree (coq/Gen/C19Src.v, regenerated on every run from gpool.go, tcphandler.go, udphandler.go) ---------- *)
+(* gpool.go is, statement for statement, the program whose transition system is Conc/Gpool.v *)
+Theorem C19_gpool_source_is_the_modelled_program :
+  src_gpool_functions = modelled_functions /\
+  src_gpool_Worker_Start = modelled_Worker_Start /\ src_gpool_newWorker = modelled_newWorker /\
+  src_gpool_NewPool = modelled_NewPool /\ src_gpool_Pool_Start = modelled_Pool_Start /\
+  src_gpool_Pool_dispatch = modelled_Pool_dispatch /\ src_gpool_Pool_Release = modelled_Pool_Release.
+Proof. exact PoolSrcProofs.gpool_source_is_the_modelled_program. Qed.
+Theorem C19_gpool_channel_capacities :
+  src_gpool_NewPool_params = modelled_NewPool_params /\ src_gpool_NewPool_chans = modelled_NewPool_chans /\
+  src_gpool_newWorker_chans = modelled_newWorker_chans.
+Proof. exact PoolSrcProofs.gpool_channel_capacities. Qed.
+(* the handlers' routing decision, evaluated from the condition in the source: pool iff MaxInvoke > 0 for EVERY QueueCap (0 is a real
+   configuration), the pool is built under the same condition with W = MaxInvoke, Q = QueueCap; the hand-over is a blocking send *)
+Theorem C19_handlers_route_by_MaxInvoke : forall max_invoke queue_cap,
+  route_of src_tcp_route_cond max_invoke queue_cap = Some (routing max_invoke) /\
+  route_of src_udp_route_cond max_invoke queue_cap = Some (routing max_invoke) /\
+  cond_value src_tcp_pool_cond max_invoke queue_cap = Some (0 <? max_invoke)%Z /\
+  cond_value src_udp_pool_cond max_invoke queue_cap = Some (0 <? max_invoke)%Z /\
+  arg_values src_tcp_pool_args max_invoke queue_cap = [Some (VZ max_invoke); Some (VZ queue_cap)] /\
+  arg_values src_udp_pool_args max_invoke queue_cap = [Some (VZ max_invoke); Some (VZ queue_cap)].
+Proof. exact PoolSrcProofs.handlers_route_by_MaxInvoke. Qed.
+Theorem C19_queue_cap_zero_still_pooled : forall max_invoke, (0 < max_invoke)%Z ->
+  route_of src_tcp_route_cond max_invoke 0 = Some ToPool /\ route_of src_udp_route_cond max_invoke 0 = Some ToPool.
+Proof. exact PoolSrcProofs.queue_cap_zero_still_pooled. Qed.
+Theorem C19_handlers_submit_by_blocking_send : tcp_submit_is_blocking_send = true /\ udp_submit_is_blocking_send = true.
+Proof. exact PoolSrcProofs.handlers_submit_by_blocking_send. Qed.
+
+Theorem C19_listen_builds_the_pool_once : src_tcp_Listen = modelled_tcp_Listen /\ src_udp_Listen = modelled_udp_Listen.
+Proof. exact PoolSrcProofs.listen_builds_the_pool_once. Qed.
+
+(* ---------- the pool inside tcpHandler (Conc/PoolUse.v): accept loop, connection goroutines, recvDone, numInvoke, Shutdown ---------- *)
+(* the statement order read off the source: Add before go, Wait before Release, numInvoke counted at hand-over *)
+Theorem C19_source_statement_order : source_flags = good_flags.
+Proof. exact PoolSrcProofs.source_statement_order. Qed.
+(* for that order, every number of connections and requests and every schedule (Shutdown racing with accepts and submissions):
+   every request handed to the pool is pending, running or executed, once *)
+Theorem C19_requests_handed_once : forall s, treachable source_flags s ->
+  Permutation (t_handed s) (t_pend s ++ t_runn s ++ t_exec s) /\ NoDup (t_pend s ++ t_runn s ++ t_exec s).
+Proof. exact PoolSrcProofs.source_handed_once. Qed.
+(* Release is accepted by the pool only when every request ever handed to it has been executed and every connection goroutine has ended *)
+Theorem C19_pool_released_only_when_drained : forall s, treachable source_flags s -> t_released s = true ->
+  t_pend s = [] /\ t_runn s = [] /\ Permutation (t_handed s) (t_exec s) /\ Forall (fun c => c_pc c = CDone) (t_conns s).
+Proof. exact PoolSrcProofs.source_release_only_when_drained. Qed.
+Theorem C19_nothing_handed_over_after_release : forall s i n s', treachable source_flags s -> t_released s = true ->
+  tstep source_flags s (CSubmit i n) = Some s' -> False.
+Proof. exact PoolSrcProofs.source_nothing_handed_over_after_release. Qed.
+(* the shutdown is never stuck before Handle has returned *)
+Theorem C19_shutdown_progress : forall s, treachable source_flags s -> t_closed s = true -> t_ap s <> ADone ->
+  exists l s', l <> TShutdown /\ tstep source_flags s l = Some s'.
+Proof. exact PoolSrcProofs.source_shutdown_progress. Qed.
+(* refinement: the events (request read, handler start / end, Handle returned) of every execution pass the check [puse_ok] that the
+   harness applies to the recorded traces of the real TCP server scenarios *)
+Theorem C19_server_traces_accepted : forall ls s, trun source_flags tinit ls = Some s -> puse_ok (ptrace source_flags tinit ls) = true.
+Proof. exact PoolSrcProofs.source_server_traces_accepted. Qed.
+(* each of the three orders matters: reversed, some schedule releases the pool over a request that is still pending (it never runs) *)
+Theorem C19_add_inside_goroutine_refuted :
+  exists s, trun (mkflags false true true) tinit witness_add_inside = Some s /\ lost_request s = true /\ t_ap s = ADone.
+Proof. exact PoolUseProofs.add_inside_loses_requests. Qed.
+Theorem C19_release_before_wait_refuted :
+  exists s, trun (mkflags true false true) tinit witness_release_first = Some s /\ lost_request s = true.
+Proof. exact PoolUseProofs.release_first_loses_requests. Qed.
+Theorem C19_count_at_start_refuted :
+  exists s, trun (mkflags true true false) tinit witness_count_at_start = Some s /\ lost_request s = true.
+Proof. exact PoolUseProofs.count_at_start_loses_requests. Qed.
 
 Print Assumptions C19_at_most_once.
 Print Assumptions C19_conservation.
@@ -181,3 +256,20 @@ Print Assumptions C19_spec_prefix.
 Print Assumptions C19_spec_start_once.
 Print Assumptions C19_spec_release.
 Print Assumptions C19_spec_complete.
+Print Assumptions C19_gpool_source_is_the_modelled_program.
+Print Assumptions C19_gpool_channel_capacities.
+Print Assumptions C19_handlers_route_by_MaxInvoke.
+Print Assumptions C19_queue_cap_zero_still_pooled.
+Print Assumptions C19_handlers_submit_by_blocking_send.
+Print Assumptions C19_source_statement_order.
+Print Assumptions C19_requests_handed_once.
+Print Assumptions C19_pool_released_only_when_drained.
+Print Assumptions C19_nothing_handed_over_after_release.
+Print Assumptions C19_shutdown_progress.
+Print Assumptions C19_add_inside_goroutine_refuted.
+Print Assumptions C19_release_before_wait_refuted.
+Print Assumptions C19_count_at_start_refuted.
+Print Assumptions C19_release_after_every_started_job_finished.
+Print Assumptions C19_worker_registration_never_blocks.
+Print Assumptions C19_listen_builds_the_pool_once.
+Print Assumptions C19_server_traces_accepted.
